@@ -28,7 +28,7 @@ func init() {
 				"profile, device and their nested settings types is read by the cache encoder and written by the decoder. R7: no " +
 				"encoder loop appends a view of a buffer that the next iteration overwrites.",
 			NotCovered: "that the maps equal a reference model after arbitrary synchronisation sequences; protobuf wire compatibility.",
-			Rules: map[string]string{"C14-R24": "the file-cache codec copies the minutes of a pause-schedule interval as they are, in both directions (a conversion of the same-named field and nothing else): an interval that ends at midnight (End 1440) ends at midnight after a restart", "C14-R23": "the file-cache codec carries prefix lengths over unchanged, zero included (shared with C09-R16): a match-all subnet of an access or rate-limit list is the same subnet after a restart", "C14-R22": "cmd.setServerGroupProperties collects every bind prefix of every server, single addresses included, into the set against which the backend decoder checks dedicated addresses: the append is not made under a test of IsSingleIP (a device whose dedicated address is one of the single-address binds would be dropped at every synchronisation)", "C14-R20": "filecachepb.(*Ratelimiter).toInternal: the global limiter exactly for absent or disabled settings, otherwise the profile's own with the stored limit and subnets (shared with C09-R13)", "C14-R21": "filecachepb.ipToBytes stores netip.Addr.MarshalBinary of the address, so a device without a linked IP comes back without one", "C14-R18": "every clean-up goroutine of the profile database deletes from the index map that the lookup which starts it reads", "C14-R19": "the access settings a profile was built with are what Config() reports for the file cache, whether or not the profile has served a query in between (shared with C10-R6)", "C14-R17": "the backendpb converters read a field through a sub-message pointer only after a nil test of it (a panic in the synchronisation ends the periodic refresh loop)", "C14-R16": "ProfileStorage.Profiles hands on every received profile that converts (from the success edge of toInternal the next receive is reachable only through the appends to Profiles and Devices)", "C14-R15": "ProfileByHumanID answers only when the profile that contains the found device is the requested one (stale (profile, human ID) keys of moved devices)", "C14-RC": "class rules (error chains, shadowed results, character classes, crossed arguments, pool constructors, array pools, loop completeness, loop-carried buffers, replacing setters, complete clones, Grow arithmetic, pooled-buffer escape, sorted searches, fresh decode targets, per-iteration objects, whole-message copies, codec guards) over the packages this property rests on", "C14-R14": "profile decoders return a usable value, never a nil interface, on error-free paths (expected count zero; F16 was the one instance)", "C14-R13": "profile codecs: early default returns only for nil / disabled input; nil sub-messages only for nil input (shared class rules)", "C14-R12": "the periodic refresh worker that drives the profile sync (shared rule, see C13-R11)", "C14-R11": "weekly-schedule codecs: all seven weekdays converted, each from/to the field of its own day (constant-index stores or a full loop over a weekday-ordered list)", "C14-R1": "maps and generation only under mapsMu", "C14-R2": "clean-ups re-validated by generation; inserts bump it",
+			Rules: map[string]string{"C14-R26": "DefaultRatelimiter.Config reports the limiter as enabled (the constant true: a DefaultRatelimiter exists only for an enabled custom limit, whatever its RPS): the file cache writes a profile's limit of zero requests as an enabled limit; R27: the device finder's findDevice tests the profile's Deleted mark itself, for every way a device was found (the dedicated-address path builds its result without the common helper)", "C14-R25": "the file-cache loader accepts a file of exactly its own layout version and refuses every other one, older ones included (a record written before a field existed decodes with that field empty: no authentication policy, no access rules)", "C14-R24": "the file-cache codec copies the minutes of a pause-schedule interval as they are, in both directions (a conversion of the same-named field and nothing else): an interval that ends at midnight (End 1440) ends at midnight after a restart", "C14-R23": "the file-cache codec carries prefix lengths over unchanged, zero included (shared with C09-R16): a match-all subnet of an access or rate-limit list is the same subnet after a restart", "C14-R22": "cmd.setServerGroupProperties collects every bind prefix of every server, single addresses included, into the set against which the backend decoder checks dedicated addresses: the append is not made under a test of IsSingleIP (a device whose dedicated address is one of the single-address binds would be dropped at every synchronisation)", "C14-R20": "filecachepb.(*Ratelimiter).toInternal: the global limiter exactly for absent or disabled settings, otherwise the profile's own with the stored limit and subnets (shared with C09-R13)", "C14-R21": "filecachepb.ipToBytes stores netip.Addr.MarshalBinary of the address, so a device without a linked IP comes back without one", "C14-R18": "every clean-up goroutine of the profile database deletes from the index map that the lookup which starts it reads", "C14-R19": "the access settings a profile was built with are what Config() reports for the file cache, whether or not the profile has served a query in between (shared with C10-R6)", "C14-R17": "the backendpb converters read a field through a sub-message pointer only after a nil test of it (a panic in the synchronisation ends the periodic refresh loop)", "C14-R16": "ProfileStorage.Profiles hands on every received profile that converts (from the success edge of toInternal the next receive is reachable only through the appends to Profiles and Devices)", "C14-R15": "ProfileByHumanID answers only when the profile that contains the found device is the requested one (stale (profile, human ID) keys of moved devices)", "C14-RC": "class rules (error chains, shadowed results, character classes, crossed arguments, pool constructors, array pools, loop completeness, loop-carried buffers, replacing setters, complete clones, Grow arithmetic, pooled-buffer escape, sorted searches, fresh decode targets, per-iteration objects, whole-message copies, codec guards) over the packages this property rests on", "C14-R14": "profile decoders return a usable value, never a nil interface, on error-free paths (expected count zero; F16 was the one instance)", "C14-R13": "profile codecs: early default returns only for nil / disabled input; nil sub-messages only for nil input (shared class rules)", "C14-R12": "the periodic refresh worker that drives the profile sync (shared rule, see C13-R11)", "C14-R11": "weekly-schedule codecs: all seven weekdays converted, each from/to the field of its own day (constant-index stores or a full loop over a weekday-ordered list)", "C14-R1": "maps and generation only under mapsMu", "C14-R2": "clean-ups re-validated by generation; inserts bump it",
 				"C14-R3": "full sync clears all maps", "C14-R4": "lookup re-check decision trees", "C14-R5": "atomic cache write, version check",
 				"C14-R6": "codec field coverage", "C14-R7": "no loop-carried buffer aliasing in the encoder",
 				"C14-R8": "synchronisation protocol tables: Refresh (apply exactly what was fetched, advance the sync point, store the file cache on a full sync), fetchProfiles (a full sync asks from the zero time), needsFullSync, loadFileCache"},
@@ -41,6 +41,14 @@ var c14Maps = map[string]bool{"profiles": true, "devices": true, "dedicatedIPToD
 const pdb = "profiledb.(*Default)."
 
 func runC14(c *an.Ctx) {
+	// ---- R26: an enabled custom limit is stored as enabled; R27: deleted profiles are filtered in findDevice
+	c.Floor("C14-R26", 1)
+	c14RatelimitConfigEnabled(c, "C14-R26")
+	c.Floor("C14-R27", 1)
+	c14DeletedFilteredCentrally(c, "C14-R27")
+	// ---- R25: only the loader's own cache version is loaded
+	c.Floor("C14-R25", 1)
+	c14ExactCacheVersion(c, "C14-R25")
 	// ---- R24: schedule minutes survive the file cache unchanged
 	c.Floor("C14-R24", 4)
 	c14ScheduleVerbatim(c, "C14-R24")
@@ -1822,4 +1830,119 @@ func c14ScheduleVerbatim(c *an.Ctx, rule string) {
 			c.Und(rule, k, fn.Pos(), "no store into Start / End found")
 		}
 	}
+}
+
+// c14ExactCacheVersion: filecachepb.(*Storage).Load compares the version stored
+// in the file with internal.FileCacheVersion and returns CacheVersionError when
+// they differ.  The comparison is an inequality test (!=, or == with the
+// branches the other way round); an ordering test lets files of another layout
+// through on one side.
+func c14ExactCacheVersion(c *an.Ctx, rule string) {
+	k := "profiledb/internal/filecachepb.(*Storage).Load"
+	fn := c.Prog.Fn(k)
+	key := k + " refuses every cache version but its own"
+	if fn == nil {
+		c.Und(rule, key, token.NoPos, "anchor not found")
+		return
+	}
+	c.Analysed(k)
+	n, bad := 0, ""
+	an.Instrs(fn, func(in ssa.Instruction) {
+		b, ok := in.(*ssa.BinOp)
+		if !ok {
+			return
+		}
+		isVersion := func(v ssa.Value) bool {
+			for {
+				switch x := v.(type) {
+				case *ssa.Convert:
+					v = x.X
+					continue
+				case *ssa.ChangeType:
+					v = x.X
+					continue
+				case *ssa.UnOp:
+					if x.Op == token.MUL {
+						if _, f, _, ok := an.FieldOf(x.X); ok && f == "Version" {
+							return true
+						}
+					}
+				case *ssa.Call:
+					// the generated getter
+					if callee := an.StaticCallee(x); callee != nil && callee.Name() == "GetVersion" {
+						return true
+					}
+				}
+				return false
+			}
+		}
+		if !(isVersion(b.X) || isVersion(b.Y)) {
+			return
+		}
+		n++
+		if b.Op != token.NEQ && b.Op != token.EQL {
+			bad = "the file's version is compared with " + b.Op.String() + " at " + c.Pos(b.Pos())
+		}
+	})
+	if n == 0 {
+		c.Und(rule, key, fn.Pos(), "no comparison of the file's version found")
+		return
+	}
+	c.Check(bad == "", rule, key, fn.Pos(), fmt.Sprintf("%d comparison(s), all (in)equality tests", n),
+		bad+": files of another layout version are accepted on one side; their records decode with the fields that did not exist yet left empty, and the incremental synchronisation that follows a cache load does not repair devices that did not change")
+}
+
+// c14RatelimitConfigEnabled: agd.(*DefaultRatelimiter).Config is what the file
+// cache serialises.  Its Enabled is the constant true.
+func c14RatelimitConfigEnabled(c *an.Ctx, rule string) {
+	k := "agd.(*DefaultRatelimiter).Config"
+	fn := c.Prog.Fn(k)
+	key := k + " reports an enabled limit"
+	if fn == nil {
+		c.Und(rule, key, token.NoPos, "anchor not found")
+		return
+	}
+	c.Analysed(k)
+	ok, found := false, false
+	an.Instrs(fn, func(in ssa.Instruction) {
+		if st, isSt := in.(*ssa.Store); isSt {
+			if _, f, _, isF := an.FieldOf(st.Addr); isF && f == "Enabled" {
+				found = true
+				if kc, isK := st.Val.(*ssa.Const); isK && kc.Value != nil && kc.Value.String() == "true" {
+					ok = true
+				}
+			}
+		}
+	})
+	if !found {
+		c.Und(rule, key, fn.Pos(), "no store into Enabled found")
+		return
+	}
+	c.Check(ok, rule, key, fn.Pos(), "Enabled is the constant true",
+		"the Enabled of the serialised limit is computed, not the constant true: a profile whose custom limit is enabled with zero requests per second (drop everything) comes back from the file cache with the limit off")
+}
+
+// c14DeletedFilteredCentrally: the profile database keeps a profile that an
+// incremental synchronisation marked deleted; the device finder turns such a
+// find into "not found".  findDevice, through which every kind of lookup
+// returns, reads Profile.Deleted.
+func c14DeletedFilteredCentrally(c *an.Ctx, rule string) {
+	k := "dnssvc/internal/devicefinder.(*Default).findDevice"
+	fn := c.Prog.Fn(k)
+	key := k + " drops devices of deleted profiles for every kind of lookup"
+	if fn == nil {
+		c.Und(rule, key, token.NoPos, "anchor not found")
+		return
+	}
+	c.Analysed(k)
+	reads := false
+	an.Instrs(fn, func(in ssa.Instruction) {
+		if fa, ok := in.(*ssa.FieldAddr); ok {
+			if t, f, _, ok := an.FieldOf(fa); ok && strings.HasSuffix(t, "agd.Profile") && f == "Deleted" {
+				reads = true
+			}
+		}
+	})
+	c.Check(reads, rule, key, fn.Pos(), "findDevice tests Profile.Deleted",
+		"findDevice no longer tests the Deleted mark of the found profile: a lookup path that builds its result without the common helper (the dedicated-address path) keeps recognising the devices of a deleted profile while the other lookups answer not found")
 }
